@@ -392,6 +392,9 @@ func (n *nodeSim) checkStatusReport(rec *sendRec) {
 }
 
 func (n *nodeSim) judgeReport(b *bpv7.Bundle, where string) {
+	if n.noReportJudge {
+		return
+	}
 	id := b.ID().String()
 	if n.reportsJudged == nil {
 		n.reportsJudged = map[string]bool{}
